@@ -1,4 +1,7 @@
 SPECIFICATION Spec
-CONSTANT Atomic = FALSE
+CONSTANTS
+  Atomic = FALSE
+  Readers = 0
+  CachedView = FALSE
 INVARIANT InvAtMostOnce
 CHECK_DEADLOCK FALSE
